@@ -125,7 +125,7 @@ func runCheck(args []string) {
 	isKnown := func(name string) *KnownFinding {
 		for i := range known {
 			k := &known[i]
-			if k.Property != *prop || k.Status == "fixed" {
+			if k.Status == "fixed" {
 				continue
 			}
 			if ok, _ := regexp.MatchString("^"+k.Obligation+"$", name); ok {
@@ -161,7 +161,7 @@ func runCheck(args []string) {
 			}
 			if k := isKnown(ob.Name); k != nil {
 				if !printedKnown[k.Obligation] {
-					fmt.Printf("KNOWN-FINDING: property=%s %s\n", *prop, k.What)
+					fmt.Printf("KNOWN-FINDING: property=%s %s\n", k.Property, k.What)
 					printedKnown[k.Obligation] = true
 				}
 				unclaimed = append(unclaimed, ob.Name+" (known finding)")
